@@ -99,6 +99,7 @@ from isla.mexpr_parser.MexprParser import MexprParser
 from isla.parser import EarleyParser, PEGParser
 from isla.type_defs import Path, Grammar, ImmutableGrammar, ImmutableList, Pair
 from isla.z3_helpers import (
+    z3_string_val,
     is_valid,
     z3_push_in_negations,
     z3_subst,
@@ -1567,7 +1568,7 @@ class SMTFormula(Formula):
             z3_subst(
                 self.formula,
                 {
-                    variable.to_smt(): z3.StringVal(str(tree))
+                    variable.to_smt(): z3_string_val(str(tree))
                     for variable, tree in complete_substitutions.items()
                 },
             ),
